@@ -147,6 +147,9 @@ def find_flows(facts, only_unordered=True):
     """all (source -> consumer) iteration flows of the crate"""
     cg = cg_of(facts)
     flows = []
+    from .roles import roles_of
+    lb_ = roles_of(facts).body("lister")
+    _LISTER[0] = lb_.path if lb_ is not None else None
     for body in facts.repo_bodies():
         du = du_of(body)
         cfg = cfg_of(body)
@@ -180,6 +183,9 @@ def find_flows(facts, only_unordered=True):
     return flows
 
 
+_LISTER = [None]
+
+
 def _is_listing(src):
     a = src[2][0] if src[2] else None
     if a is None:
@@ -190,6 +196,8 @@ def _is_listing(src):
             return False
         if c.trait == "adapter::Adapter" and c.name == "list_objects":
             return True
+        if _LISTER[0] is not None and c.target() == _LISTER[0]:
+            return True     # the pass-through wrapper around the adapter listing, found by role
         # pass-through wrapper around the adapter listing (DataStorage): returns Result<Vec<String>>
         return c.impl_self == "datastorage::DataStorage" and "Vec<std::string::String>" in (x[4].j.get("ret", "") or "") or \
             (c.impl_self == "datastorage::DataStorage" and c.name.startswith("list"))
